@@ -39,16 +39,18 @@ def Link.Real (ein eout : Enc m) (k : Link m) (p : V m.T) : Prop :=
     vectors have one shape, reshaping to it changes nothing, adding encoded vectors is adding the vectors — in
     both directions (forward adds the source to the target, backward the target's gradient to the source's) -/
 structure Compat (e1 e2 : Enc m) : Prop where
-  add12 : ∀ u v, (e1 u).add (e2 v) = .ok (e1 (u + v))
-  add21 : ∀ u v, (e2 u).add (e1 v) = .ok (e2 (u + v))
-  shape : ∀ u v, (e2 u).shape = (e1 v).shape
-  reshape : ∀ u v, (e1 u).reshape (e2 v).shape = .ok (e1 u)
+  /-- forward: the source (brought to the target's shape when the shapes differ) added to the target -/
+  fwd : ∀ u v, ∃ w, (if (e2 v).shape ≠ (e1 u).shape then (e2 v).reshape (e1 u).shape else .ok (e2 v)) = .ok w ∧
+    (e1 u).add w = .ok (e1 (u + v))
+  /-- backward: the target's processed-input gradient, brought to the source's shape, added to the source's -/
+  bwd : ∀ u v, ∃ w, (e1 v).reshape (e2 u).shape = .ok w ∧ (e2 u).add w = .ok (e2 (u + v))
+  /-- a layer connected to itself -/
+  self : e1 = e2 → ∀ u v, ∃ w, (e2 v).reshape (e2 u).shape = .ok w ∧ (e2 u).add w = .ok (e2 (u + v))
 
 theorem compat_of_encAdd {e : Enc m} (he : EncAdd e) : Compat e e where
-  add12 := he.add
-  add21 := he.add
-  shape := he.shape
-  reshape := he.reshape
+  fwd u v := ⟨e v, by rw [if_neg (by rw [ne_eq, not_not]; exact he.shape _ _)], he.add _ _⟩
+  bwd u v := ⟨e v, he.reshape _ _, he.add _ _⟩
+  self _ u v := ⟨e v, he.reshape _ _, he.add _ _⟩
 
 /-- the stretch as a `SkipDag.Net`; the table is relative to the stretch: `(target, source)` -/
 def dagNet (body : List (Link m)) (tbl : List (Nat × Nat)) : SkipDag.Net m.T where
@@ -120,8 +122,8 @@ theorem skipInput_body (hacc : n.skipaccumulation = .add) (hcomp : ∀ t s, Asso
   | some s =>
     have hle := hsrc k s hs
     simp only [Option.map_some, hact s hle]
-    rw [if_neg (by rw [ne_eq, not_not]; exact (hcomp k s hs).shape _ _)]
-    simp only [hacc, accumulate1, (hcomp k s hs).add12]
+    obtain ⟨w, hw1, hw2⟩ := (hcomp k s hs).fwd (SkipDag.U (dagNet body tbl) k y) (SkipDag.U (dagNet body tbl) s y)
+    simp only [hw1, hacc, accumulate1, hw2]
     have : SkipDag.P (dagNet body tbl) k y = SkipDag.U (dagNet body tbl) k y + SkipDag.U (dagNet body tbl) s y := by
       simp [SkipDag.P, SkipDag.skipv, dagNet, hs, hle]
     rw [this]
@@ -196,10 +198,12 @@ theorem fold_addSkip (len h i : Nat) (δ : V m.T) (processed : List (Tensor ℝ)
       unfold addSkipGradient
       by_cases hti : t' = i
       · subst hti
-        simp only [if_true, hc.reshape, hc.add21, hD]
+        obtain ⟨w, hw1, hw2⟩ := hc.self rfl cur δ
+        simp only [if_true, hw1, hw2, hD]
       · have := hproc hti
         rw [if_neg (by omega)]
-        simp only [checkedSub, if_pos this.1, this.2, hc.reshape, hc.add21]
+        obtain ⟨w, hw1, hw2⟩ := hc.bwd cur (D t')
+        simp only [checkedSub, if_pos this.1, this.2, hw1, hw2]
     rw [hs, fold_addSkip len h i δ processed D hD rest (cur + D t')
       (fun t ht => hts t (List.mem_cons_of_mem _ ht)), add_assoc]
 
